@@ -144,6 +144,57 @@ func c17Main(args []string) error {
 			}
 			delete(actors, name)
 		}
+		// (c) memory: write into every slice a read transaction hands out (mapped pages and inline buckets)
+		pokeAll := func(tx *bolt.Tx, base string) string {
+			b := tx.Bucket([]byte("b"))
+			poke := func(s []byte) string {
+				if len(s) == 0 {
+					return "empty"
+				}
+				old := s[0]
+				faulted := func() (f bool) {
+					defer func() {
+						if recover() != nil {
+							f = true
+						}
+					}()
+					debug.SetPanicOnFault(true)
+					s[0] = old ^ 0xff
+					return false
+				}()
+				if faulted {
+					return "fault"
+				}
+				// no fault: it must be a private copy - the file must not see the write
+				seen := fileSHA(path) != base
+				s[0] = old
+				if seen {
+					return "WRITABLEVIEW"
+				}
+				return "copy"
+			}
+			kinds := map[string]int{}
+			cur := b.Cursor()
+			for k, v := cur.First(); k != nil; k, v = cur.Next() {
+				kinds["key-"+poke(k)]++
+				if v != nil {
+					kinds["val-"+poke(v)]++
+				}
+			}
+			in := b.Bucket([]byte("inline"))
+			ik, iv := in.Cursor().First()
+			kinds["inlinekey-"+poke(ik)]++
+			kinds["inlineval-"+poke(iv)]++
+			// content re-read afterwards
+			if string(in.Get([]byte("x"))) != "small-inline-value" {
+				kinds["MODIFIED-"]++
+			}
+			var ks []string
+			for k, n := range kinds {
+				ks = append(ks, fmt.Sprintf("%s:%d", k, n))
+			}
+			return "poke=" + strings.Join(ks, ",")
+		}
 		// ---- (b) read-only session
 		sha0 := fileSHA(path)
 		writes := 0
@@ -183,60 +234,26 @@ func c17Main(args []string) error {
 					}()
 					return errName(tx.Commit())
 				}())
-				// (c) memory: write into every slice handed out
-				poke := func(s []byte) string {
-					if len(s) == 0 {
-						return "empty"
-					}
-					old := s[0]
-					faulted := func() (f bool) {
-						defer func() {
-							if recover() != nil {
-								f = true
-							}
-						}()
-						debug.SetPanicOnFault(true)
-						s[0] = old ^ 0xff
-						return false
-					}()
-					if faulted {
-						return "fault"
-					}
-					// no fault: it must be a private copy - the file must not see the write
-					seen := fileSHA(path) != sha0
-					s[0] = old
-					if seen {
-						return "WRITABLEVIEW"
-					}
-					return "copy"
-				}
-				kinds := map[string]int{}
-				cur := b.Cursor()
-				for k, v := cur.First(); k != nil; k, v = cur.Next() {
-					kinds["key-"+poke(k)]++
-					if v != nil {
-						kinds["val-"+poke(v)]++
-					}
-				}
-				in := b.Bucket([]byte("inline"))
-				ik, iv := in.Cursor().First()
-				kinds["inlinekey-"+poke(ik)]++
-				kinds["inlineval-"+poke(iv)]++
-				// content re-read afterwards
-				if string(in.Get([]byte("x"))) != "small-inline-value" {
-					kinds["MODIFIED-"]++
-				}
-				var ks []string
-				for k, n := range kinds {
-					ks = append(ks, fmt.Sprintf("%s:%d", k, n))
-				}
-				res = append(res, "poke="+strings.Join(ks, ","))
+				res = append(res, pokeAll(tx, sha0))
 				return nil
 			})
 			ro.Close()
 			fmt.Fprintf(w, "o ro session\nr %s writes=%d same=%v\n", strings.Join(res, " "), writes, fileSHA(path) == sha0)
 		}
 		bolt.VerifHook = nil
+		// ---- (c') the same probe through a read transaction of a read-write handle
+		if rw, err := bolt.Open(path, 0600, &bolt.Options{Timeout: time.Second}); err == nil {
+			sha1 := fileSHA(path) // Open itself may legitimately have flushed the free list
+			var pk string
+			_ = rw.View(func(tx *bolt.Tx) error { pk = pokeAll(tx, sha1); return nil })
+			same := fileSHA(path) == sha1
+			var reread string
+			_ = rw.View(func(tx *bolt.Tx) error { reread = string(tx.Bucket([]byte("b")).Get([]byte("k0001"))); return nil })
+			rw.Close()
+			fmt.Fprintf(w, "o rwview session\nr %s same=%v reread=%v\n", pk, same, reread == strings.Repeat("\x01", len(reread)) && len(reread) > 0)
+			// put the base file back exactly (the lock sequence and CLI parts compare against sha0)
+			sha0 = fileSHA(path)
+		}
 		// the command-line tool's inspection commands
 		for _, cmdline := range [][]string{{"check", path}, {"dump", path, "2"}, {"page", path, "2"}, {"pages", path}, {"keys", path, "b"},
 			{"get", path, "b", "k0001"}, {"buckets", path}, {"stats", path}, {"inspect", path}, {"info", path}} {
